@@ -1730,7 +1730,7 @@ def dip_value_same(mv, rv):
                 and all(dip_value_same(x, y) for x, y in zip(mv, rv)))
     if isinstance(mv, bool) or isinstance(rv, bool):
         return isinstance(mv, bool) and isinstance(rv, bool) and mv == rv
-    if isinstance(mv, dict):
+    if isinstance(mv, dict) and set(mv) != {"s"}:
         if set(mv) != {"f"} or not isinstance(rv, float):
             return False
         try:
@@ -1738,18 +1738,26 @@ def dip_value_same(mv, rv):
         except Exception:
             return False
         return x == rv or math.isclose(x, rv, rel_tol=1e-9, abs_tol=0.0)
+    if isinstance(mv, dict) and set(mv) == {"s"}:
+        return isinstance(rv, str) and mv["s"] == rv
     return isinstance(mv, int) and isinstance(rv, int) and mv == rv
 
 
 def judge_dip_reader(ctx, c, m, sel, text, r):
     """Tie of the Lean model of the DIP node parser (Model/C19Dip.lean: readDip) to the real parser: on every
-    exported text whose nodes are all boolean / numeric (the fragment the reader models and
-    C19_roundtrip_dip_partial is about) the model's reading of the text and the real re-parse must agree on
+    exported text whose nodes are boolean / numeric (scalars and arrays) or scalar strings without '$' that do not end
+    in a backslash (the fragment the reader models and C19_roundtrip_dip_partial is about) the model's reading of the text and the real re-parse must agree on
     name, kind, precision, value (hence shape) and unit of every parameter, in order.  impl != model here is a
     broken tie (disagreement), never a violation."""
-    if not text or not sel or m.get("text") != text or any(p.kind == "str" for p in sel):
+    if not text or not sel or m.get("text") != text:
+        return
+    # outside the reader model: arrays of strings, string texts with '$' (place-holders of DIP._determine_node) and
+    # texts ending in a backslash (known finding dip:string-trailing-backslash)
+    if any(p.kind == "str" and (isinstance(p.value, list) or "$" in p.value or p.value.endswith("\\")) for p in sel):
         return
     ctx.count("dip-reader-model")
+    if any(p.kind == "str" for p in sel):
+        ctx.count("dip-reader-model.with-string")
     mr = decode_cp(m.get("read"))
     ms = decode_cp(m.get("spec"))
     real = None if r is None else r[1]
